@@ -48,6 +48,29 @@ fn judge_one(input: &[u8], expect: V2Ref, what: &str, rec: &mut Recorder) {
         },
         _ => false,
     };
+    // "leaves it incomplete": the same verdict as seen through the auto-detecting entry point,
+    // whose completeness flags a receiver loop reads (it delegates to the v2 parser for every
+    // input that starts with the signature)
+    if ok && !matches!(expect, V2Ref::Ok { .. }) {
+        rec.event();
+        let a = auto_parse(input);
+        let fine = match &a {
+            OA::V2(o) => !o.is_ok() && matches!(o.flags(), Some((true, false))),
+            // fewer than 12 bytes of signature: the text parser may have been asked; it must not have a final verdict either
+            OA::V1(o) => input.len() < 12 && !o.is_ok() && matches!(o.flags(), Some((true, false))),
+            OA::Panic(_) => false,
+        };
+        if !fine && input.len() >= 12 {
+            let declared = if input.len() >= 16 { u16::from_be_bytes([input[14], input[15]]) as usize } else { 0 };
+            rec.violation(
+                &format!("{}:auto-flags", what),
+                enc_case("v2", &input[..input.len().min(70_100)]),
+                format!("{}|auto|{}", what, if input.len() < 16 { "fixed-part" } else { "payload" }),
+                format!("{}: header {:?} declared length {} with {} bytes present is {:?} for the v2 parser, but HeaderResult::parse gives {} (must be flagged incomplete)", what, show(&input[..input.len().min(20)], 20), declared, input.len(), expect, a.class()),
+            );
+            return;
+        }
+    }
     if ok {
         rec.class(&format!("{}|{}", what, expect_class(&expect)), || format!("{} ({} bytes present) -> {:?}", show(&input[..input.len().min(20)], 20), input.len(), expect));
     } else {
@@ -128,7 +151,30 @@ fn case(pair: u64, len: u16, seed: u64, rec: &mut Recorder) {
     // signature; what has been supplied so far must not matter to the counts
     crate::c02::BIG.with(|b| {
         let mut b = b.borrow_mut();
-        match rng.below(4) {
+        match rng.below(6) {
+            4 | 5 => {
+                // everything received so far is well-formed: the TLV bytes up to 16 bytes before
+                // the end (resp. up to the byte-swapped length) are one complete TLV, the rest
+                // another - a cut there falls on a TLV boundary
+                let blk = spec::v2::address_block(&mut rng, fam);
+                b[16..16 + blk.len()].copy_from_slice(&blk);
+                let sw = ((l & 0xFF) << 8) | (l >> 8);
+                let cut = if sw < l && sw >= size + 3 && rng.coin() { sw } else { l.saturating_sub(16) };
+                if fam != 0 && cut >= size + 3 && cut < l {
+                    let n = cut - size - 3;
+                    let at = 16 + size;
+                    b[at] = *rng.pick(&[0x04u8, 0x01, 0x05, 0x20, 0xEE]);
+                    b[at + 1] = (n >> 8) as u8;
+                    b[at + 2] = n as u8;
+                    let rest = l - cut;
+                    if rest >= 3 {
+                        let at2 = 16 + cut;
+                        b[at2] = 0x04;
+                        b[at2 + 1] = ((rest - 3) >> 8) as u8;
+                        b[at2 + 2] = (rest - 3) as u8;
+                    }
+                }
+            }
             0 => {
                 let blk = spec::v2::address_block(&mut rng, fam);
                 b[16..16 + blk.len()].copy_from_slice(&blk);
@@ -159,6 +205,14 @@ fn case(pair: u64, len: u16, seed: u64, rec: &mut Recorder) {
         }
         // natural cut points: the end of the address block of each family, 12 bytes into the payload
         for cut in [12usize, 36, 216, 28, 32] {
+            if cut < l {
+                presents.push(16 + cut);
+            }
+        }
+        // cuts related to the length field itself: 16 bytes short (a sender that counted the fixed
+        // part), the length with its two bytes exchanged, half and a quarter of it
+        let sw = ((l & 0xFF) << 8) | (l >> 8);
+        for cut in [l.saturating_sub(16), sw, l / 4, l.saturating_sub(4), l.saturating_sub(3)] {
             if cut < l {
                 presents.push(16 + cut);
             }
